@@ -45,13 +45,19 @@ Proof.
 Qed.
 Print Assumptions C12_enumerator_check_refuted.
 
-(* cdef values outside (-2^64, 2^64) are not C literals; gcc truncates them with a warning.
-   The model makes no prediction there (finding "const-beyond-64bit" is decided on the
-   implementation). *)
+(* cdef values outside (-2^64, 2^64) are not C literals (gcc would truncate them with a
+   warning): the recompiler refuses to generate the module, so the declaration is not silently
+   accepted.  (The guard is the fix of finding const-beyond-64bit, /repo 52726e0; it is part of the
+   regenerated Gen.gen_check_in_domain.) *)
 Theorem C12_const_literal_outside_C : forall T c e, e <= - 2 ^ 64 \/ 2 ^ 64 <= e ->
-  promoted T -> in_range T c -> lib_constant KMacro T c (Some e) = None.
+  lib_constant KMacro T c (Some e) = Some (Err BuildError).
 Proof. exact const_literal_outside_C. Qed.
 Print Assumptions C12_const_literal_outside_C.
+
+(* What is NOT a theorem here and is decided by the correspondence run only (tools/props/c12.py):
+   "calls return what the C function returns", "globals read and write the C object", "global
+   addresses are the compiler's", typedef sizes, and everything about bitfields and anonymous
+   nested structs/unions.  Unions ARE covered by the struct theorems below (parameter [u]). *)
 
 (* (b) structs/unions of named non-bitfield fields.  [decl] = per field the size and alignment
    of the type the cdef declares; [rep] = what the C compiler reports (offsetof, sizeof per
@@ -60,7 +66,9 @@ Print Assumptions C12_const_literal_outside_C.
 
    Without "...": realisation succeeds iff the report equals the cdef's natural layout in
    every field offset, every field size, the total size and the alignment; the result is then
-   the report; any difference raises ffi.error. *)
+   the report; any difference raises ffi.error.  The alignment is part of the comparison
+   because the backend compares it: b_complete_struct_or_union, _cffi_backend.c:5500
+   detect_custom_layout(ct, sflags, alignment, totalalignment, "wrong total alignment"). *)
 Theorem C12_struct_checked : forall packed u decl rep Lnat,
   length decl = length (r_fields rep) -> wf_report rep ->
   Forall (fun d => pow2 (fd_align d)) decl ->
@@ -122,5 +130,5 @@ Example C12_example_const :
   lib_constant KMacro u64 (2 ^ 64 - 1) (Some (-1)) = Some (Err FFIError) /\
   lib_constant KMacro s64 (- 2 ^ 63) (Some (- 2 ^ 63)) = Some (Ok (- 2 ^ 63)) /\
   lib_constant KMacro u32 0 (Some 0) = Some (Ok 0) /\
-  lib_constant KMacro s32 1 (Some (2 ^ 64 + 1)) = None.
+  lib_constant KMacro s32 1 (Some (2 ^ 64 + 1)) = Some (Err BuildError).
 Proof. vm_compute. repeat split; reflexivity. Qed.
